@@ -106,9 +106,13 @@ DeclarationSymbol* SemanticModel::addDeclaration(
         const SyntaxNode* node,
         std::unique_ptr<DeclarationSymbol> decl)
 {
+    // A node under an ambiguity that is left in the tree is shared by the
+    // alternatives, and so visited once for each of them: it's bound once.
+    auto it = P->declByNode_.find(node);
+    if (it != P->declByNode_.end())
+        return it->second;
     P->decls_.emplace_back(decl.release());
     DeclarationSymbol* addedDecl = P->decls_.back().get();
-    PSY_ASSERT_2(P->declByNode_.count(node) == 0, return nullptr);
     P->declByNode_[node] = addedDecl;
     return addedDecl;
 }
